@@ -247,9 +247,9 @@ func rbMutateQuery(r *rng, v url.Values) {
 	case 3:
 		v.Set(r.pick([]string{"max-depth", "page_size", "page_token", "subject", "subject_id", "subject_set.namespace", "unknown", "namespace"}), r.pick(rbWeird))
 	case 4:
-		v.Set("max-depth", r.pick([]string{"-5", "0", "1", "7", "1000000", "2147483648", "-2147483649", "abc", "1.5", ""}))
+		v.Set("max-depth", r.pick([]string{"-5", "0", "1", "7", "1000000", "2147483647", "2147483648", "-2147483649", "9223372036854775807", "-9223372036854775808", "abc", "1.5", ""}))
 	case 5:
-		v.Set("page_size", r.pick([]string{"-1", "-100", "0", "1", "1000000", "9223372036854775808", "abc", "0x10", ""}))
+		v.Set("page_size", r.pick([]string{"-1", "-100", "0", "1", "1000000", "2147483647", "2147483648", "4611686018427387904", "9223372036854775806", "9223372036854775807", "9223372036854775808", "-9223372036854775808", "0x7ffffffffffffff0", "abc", "0x10", ""}))
 	}
 }
 
@@ -313,6 +313,9 @@ func (rb *rbRunner) genREST(r *rng) rbCase {
 		v := rbTupleQuery(r)
 		if r.chance(1, 2) {
 			v = url.Values{"namespace": {r.pick(rbNamespaces)}}
+		}
+		if r.chance(1, 3) {
+			v.Set("page_size", r.pick([]string{"1", "2", "100", "1000000", "4611686018427387904", "9223372036854775806", "9223372036854775807", "2147483647"}))
 		}
 		c.target = "/relation-tuples?" + query(v)
 	case 6:
